@@ -294,6 +294,13 @@ Section Proofs.
   Lemma ImgKey_Named b i k id : ImgKey b i k id -> Named b id.
   Proof. intros [it [A [B _]]]. exists it. auto. Qed.
 
+  (* the repair scan probes EVERY id of (checkpoint, max(max_id, watermark)] *)
+  Lemma repair_window_full c t : repair_window c t = seq (S c) (t - c).
+  Proof. reflexivity. Qed.
+
+  Lemma repair_window_complete c t id : c < id <= t -> In id (repair_window c t).
+  Proof. intros H. rewrite repair_window_full. apply in_seq. lia. Qed.
+
   (* ---------------------------------------------------------------- recovery converges *)
   Definition Opened (b : backend) (h : handle) : Prop :=
     Consistent b h /\
@@ -314,7 +321,7 @@ Section Proofs.
     rewrite Hall.
     set (h0 := mkHandle ids (fun i => match b_idx b i with Some l => l | None => [] end) reg mx (Nat.max (b_wm b) mx) [] 0).
     eexists. split; [reflexivity|].
-    unfold repair, replay.
+    unfold repair, replay. rewrite repair_window_full.
     set (its := b_intents b).
     set (h1 := mkHandle (h_ids h0) (remove_images Keq derive its (h_idx h0)) (h_reg h0) (h_max h0) (h_wm h0)
                         (map (@i_seq D) its) (S (fold_left Nat.max (map (@i_seq D) its) (h_seq h0)))).
